@@ -1013,6 +1013,28 @@ Section Template.
         * cbn [is_prefix]. rewrite !N.eqb_refl. cbn [andb].
           intros E. apply (f_equal (@length N)) in E. cbn in E. rewrite !app_length in E. cbn in E. lia.
   Qed.
+
+  (* the same for an @identifier token whose migration is a canonically printed expression *)
+  Theorem ident_parses : forall n tr following,
+    default_to_self = false -> url_encode = false ->
+    canon (ctxmap n) = Some tr ->
+    exists body, mseg (SIdent n) following = (64 :: body, false) /\
+      (body = print3 tr \/ body = 40 :: print3 tr ++ [41]) /\
+      parse3 (print3 tr) = Some tr.
+  Proof.
+    intros n tr following Hd Hu Hc. apply canon_spec in Hc. destruct Hc as [E [W L]].
+    unfold mseg, migrate_seg. rewrite Hd, Hu, E. unfold wrap_raw.
+    destruct (is_valid_identifier (print3 tr)).
+    - destruct (separate_from_cases (64 :: print3 tr) following) as [E'|E']; fold sep; rewrite E'.
+      + eexists. split; [reflexivity|]. split; [left; reflexivity | apply parse3_print3; assumption].
+      + eexists. split; [reflexivity|]. split; [right; reflexivity | apply parse3_print3; assumption].
+    - destruct (separate_from_cases (64 :: 40 :: print3 tr ++ [41]) following) as [E'|E']; fold sep; rewrite E'.
+      + eexists. split; [reflexivity|]. split; [right; reflexivity | apply parse3_print3; assumption].
+      + exfalso. revert E'. unfold sep, separate_from. destruct (negb separates_identifiers).
+        * intros E'. apply (f_equal (@length N)) in E'. cbn in E'. rewrite !app_length in E'. cbn in E'. lia.
+        * cbn [is_prefix]. rewrite !N.eqb_refl. cbn [andb].
+          intros E'. apply (f_equal (@length N)) in E'. cbn in E'. rewrite !app_length in E'. cbn in E'. lia.
+  Qed.
 End Template.
 
 (* ---------------------------------------------------------------------------------------------- *)
@@ -1111,6 +1133,22 @@ Definition legacy_spec : list (String.string * String.string) := [
   ("WORD_SLICE(a1, a2)", "word_slice(a1, a2 - 1)"); ("WORD_SLICE(a1, a2, a3)", "word_slice(a1, a2 - 1, a3 - 1)");
   ("WORD_SLICE(a1, 2, 4, TRUE)", "word_slice(a1, 1, 3, "" \t"")");
   ("YEAR(a1)", "format_date(a1, ""YYYY"")");
+  (* every admitted number of arguments of the per-parameter migrators and joins *)
+  ("FIELD(a1)", "field(a1)"); ("FIELD(a1, a2)", "field(a1, a2 - 1)"); ("WORD(a1)", "word(a1)");
+  ("WORD_SLICE(a1)", "word_slice(a1)"); ("WORD_SLICE(a1, a2, a3, FALSE)", "word_slice(a1, a2 - 1, a3 - 1, NULL)");
+  ("WORD_COUNT(a1, FALSE)", "word_count(a1, NULL)");
+  ("SUM(a1)", "a1"); ("SUM(a1, a2)", "a1 + a2"); ("CONCATENATE(a1)", "a1"); ("CONCATENATE(a1, a2)", "a1 & a2");
+  ("WORD(a1, -1)", "word(a1, -1)");
+  (* addition and subtraction of dates and times (the operand types are those inferType derives from the migrated
+     operand text: integer literal / known function name); legacy: date + n days, datetime + time of day *)
+  ("NOW() + 1", "datetime_add(now(), 1, ""D"")"); ("NOW() - 1", "datetime_add(now(), -1, ""D"")");
+  ("TODAY() + 1", "format_date(datetime_add(today(), 1, ""D""))"); ("TODAY() - 7", "format_date(datetime_add(today(), -7, ""D""))");
+  ("NOW() + TIME(1, 2, 3)", "datetime_add(now(), format_time(time_from_parts(1, 2, 3), ""tt"") * 60 + format_time(time_from_parts(1, 2, 3), ""m""), ""m"")");
+  ("NOW() - TIME(1, 2, 3)", "datetime_add(now(), -(format_time(time_from_parts(1, 2, 3), ""tt"") * 60 + format_time(time_from_parts(1, 2, 3), ""m"")), ""m"")");
+  ("TODAY() + TIME(1, 2, 3)", "replace_time(today(), time_from_parts(1, 2, 3))");
+  ("a1 + TIMEVALUE(a2)", "replace_time(a1, time(a2))");
+  ("NOW() - (a1 + 1)", "legacy_add(now(), -(legacy_add(a1, 1)))");
+  ("1.5 + 2", "legacy_add(1.5, 2)"); ("ABS(a1) + 2", "abs(a1) + 2"); ("2 - ABS(a1) * 3", "2 - abs(a1) * 3"); ("a1 - ABS(a2) * 3", "legacy_add(a1, -(abs(a2) * 3))");
   (* operators *)
   ("a1 <> a2", "a1 != a2"); ("a1 & a2 & a3", "(a1 & a2) & a3"); ("a1 * a2 / a3", "(a1 * a2) / a3");
   ("a1 ^ a2 ^ a3", "(a1 ^ a2) ^ a3"); ("-a1 ^ a2", "(-a1) ^ a2"); ("a1 + a2", "legacy_add(a1, a2)");
@@ -1128,6 +1166,30 @@ Definition spec_ok (p : String.string * String.string) : bool :=
   end.
 
 Lemma table_meets_spec : forallb spec_ok legacy_spec = true.
+Proof. vm_compute. reflexivity. Qed.
+
+(* coverage of the specification: every key of the regenerated table has a sample call for every number of
+   arguments the migrator admits (templates: the number of placeholders; per-parameter migrators: 1 .. number of
+   parameter migrators; joins: 1, 2 and 3; as-is / renamed: at least one) *)
+Definition spec_calls : list (text * nat) :=
+  flat_map (fun p => match parse1 (s2t (fst p)) with
+                     | Some (E1Call f args) => [(lower f, length args)]
+                     | _ => []
+                     end) legacy_spec.
+
+Definition has_call (k : text) (n : nat) : bool :=
+  existsb (fun c => text_eqb (fst c) k && Nat.eqb (snd c) n) spec_calls.
+
+Definition entry_covered (e : text * cmig) : bool :=
+  let k := fst e in
+  match snd e with
+  | AsIs | Rename _ => existsb (fun c => text_eqb (fst c) k) spec_calls
+  | Template f _ => has_call k (tmpl_arity f)
+  | Join _ _ => has_call k 1 && has_call k 2 && has_call k 3
+  | Params _ _ pms => forallb (has_call k) (seq 1 (length pms))
+  end.
+
+Lemma spec_covers_table : forallb entry_covered legacy_table = true.
 Proof. vm_compute. reflexivity. Qed.
 
 (* ---------------------------------------------------------------------------------------------- *)
@@ -1224,34 +1286,51 @@ Proof.
   - rewrite H. eexists; reflexivity.
 Qed.
 
+(* the context references that occur in a legacy tree *)
+Fixpoint refs1 (e : e1) : list text :=
+  match e with
+  | E1Ref n => [n]
+  | E1Paren x => refs1 x
+  | E1Neg x => refs1 x
+  | E1Bin _ a b => refs1 a ++ refs1 b
+  | E1Call _ args => flat_map refs1 args
+  | _ => []
+  end.
+
 Section Total.
   Variable ctxmap : text -> text.
   Variable raw_dates : bool.
-  Hypothesis Hctx : forall n, canon (ctxmap n) <> None.
+
+  Definition ctx_ok_on (e : e1) : Prop := forall n, In n (refs1 e) -> canon (ctxmap n) <> None.
 
   Lemma all_some_total args :
-    Forall (fun a => regular a -> exists t, mt ctxmap raw_dates a = Some t) args -> Forall regular args ->
+    Forall (fun a => ctx_ok_on a -> regular a -> exists t, mt ctxmap raw_dates a = Some t) args ->
+    (forall n, In n (flat_map refs1 args) -> canon (ctxmap n) <> None) -> Forall regular args ->
     exists ts, all_some (map (mt ctxmap raw_dates) args) = Some ts /\ length ts = length args.
   Proof.
-    induction 1 as [|a r Ha Hr IH]; intros R.
+    induction 1 as [|a r Ha Hr IH]; intros Hc R.
     - exists []. split; reflexivity.
-    - inversion R as [|? ? Ra Rr]; subst. destruct (Ha Ra) as [t Et]. destruct (IH Rr) as (ts & E & L).
+    - inversion R as [|? ? Ra Rr]; subst. cbn [flat_map] in Hc.
+      destruct (Ha (fun n Hn => Hc n (in_or_app _ _ _ (or_introl Hn))) Ra) as [t Et].
+      destruct (IH (fun n Hn => Hc n (in_or_app _ _ _ (or_intror Hn))) Rr) as (ts & E & L).
       exists (t :: ts). cbn [map all_some]. rewrite Et, E. split; [reflexivity | cbn [length]; rewrite L; reflexivity].
   Qed.
 
-  Theorem mt_total : forall e, regular e -> exists t, mt ctxmap raw_dates e = Some t.
+  Theorem mt_total : forall e, ctx_ok_on e -> regular e -> exists t, mt ctxmap raw_dates e = Some t.
   Proof.
-    induction e using e1_ind'; intros R; inversion R; subst; cbn [mt].
+    induction e using e1_ind'; intros Hc R; inversion R; subst; cbn [mt]; unfold ctx_ok_on in Hc; cbn [refs1] in Hc.
     - rewrite literal_text_ok by assumption. eexists; reflexivity.
     - match goal with H : num_ok _ = true |- _ => rewrite H end. eexists; reflexivity.
     - eexists; reflexivity.
     - eexists; reflexivity.
-    - specialize (Hctx n). destruct (canon (ctxmap n)); [eexists; reflexivity | contradiction].
-    - match goal with H : regular e |- _ => destruct (IHe H) as [t Et] end. rewrite Et. eexists; reflexivity.
-    - match goal with H : regular e |- _ => destruct (IHe H) as [t Et] end. rewrite Et. eexists; reflexivity.
-    - match goal with Ha : regular e1, Hb : regular e2 |- _ => destruct (IHe1 Ha) as [ta Ea]; destruct (IHe2 Hb) as [tb Eb] end.
+    - specialize (Hc n (or_introl eq_refl)). destruct (canon (ctxmap n)); [eexists; reflexivity | contradiction].
+    - match goal with H : regular e |- _ => destruct (IHe Hc H) as [t Et] end. rewrite Et. eexists; reflexivity.
+    - match goal with H : regular e |- _ => destruct (IHe Hc H) as [t Et] end. rewrite Et. eexists; reflexivity.
+    - match goal with Ha : regular e1, Hb : regular e2 |- _ =>
+        destruct (IHe1 (fun n Hn => Hc n (in_or_app _ _ _ (or_introl Hn))) Ha) as [ta Ea];
+        destruct (IHe2 (fun n Hn => Hc n (in_or_app _ _ _ (or_intror Hn))) Hb) as [tb Eb] end.
       rewrite Ea, Eb. eexists; reflexivity.
-    - match goal with Ha : Forall regular args |- _ => destruct (all_some_total args H Ha) as (ts & E & L) end.
+    - match goal with Ha : Forall regular args |- _ => destruct (all_some_total args H Hc Ha) as (ts & E & L) end.
       rewrite E. apply call_tree_total. rewrite L. assumption.
   Qed.
 End Total.
